@@ -6,7 +6,9 @@ package config_test
 // to three event inputs and two block fields, in two declaration orders, the
 // real ValidateFix must record every referenced integration in Dependencies
 // (and nothing that is not referenced), must give each referenced table an
-// index on the referenced column, and must set the referenced table name.
+// index on the referenced column, and must set the referenced table name on
+// event inputs and block fields alike. Variants: the index already declared;
+// two referenced integrations writing to one shared table.
 
 import (
 	"fmt"
@@ -22,9 +24,19 @@ import (
 // declared: the operator already lists the index on the referenced column
 var declaredIndex bool
 
+// sharedTable: integrations A and B write to one table (a supported set-up)
+var sharedTable bool
+
+func tableOf(name string) string {
+	if sharedTable && name == "B" {
+		return "t_A"
+	}
+	return "t_" + name
+}
+
 func refIG(name string) config.Integration {
 	ig := config.Integration{Name: name, Enabled: true,
-		Table: wpg.Table{Name: "t_" + name, Columns: []wpg.Column{{Name: "addr", Type: "bytea"}}},
+		Table: wpg.Table{Name: tableOf(name), Columns: []wpg.Column{{Name: "addr", Type: "bytea"}}},
 		Block: []dig.BlockData{{Name: "tx_signer", Column: "addr"}}}
 	if declaredIndex {
 		ig.Table.Index = [][]string{{"addr"}}
@@ -41,7 +53,8 @@ func TestVerifDepsBounded(t *testing.T) {
 			fmt.Printf("BOUNDED-FAIL "+format+"\n", a...)
 		}
 	}
-	for _, declaredIndex = range []bool{false, true} {
+	for _, variant := range [][2]bool{{false, false}, {true, false}, {false, true}} {
+		declaredIndex, sharedTable = variant[0], variant[1]
 		for code := 0; code < 4*4*4*4*4; code++ {
 			pick := func(k int) string {
 				c := code
@@ -118,14 +131,21 @@ func TestVerifDepsBounded(t *testing.T) {
 					}
 				}
 				for k, inp := range conf.Integrations[mi].Event.Inputs {
-					if p := pick(k); p != "" && inp.Filter.Ref.Table != "t_"+p {
+					if p := pick(k); p != "" && inp.Filter.Ref.Table != tableOf(p) {
 						fail("input %d references %s but its table is %q", k, p, inp.Filter.Ref.Table)
+					}
+				}
+				for k, bd := range conf.Integrations[mi].Block {
+					if k < 2 {
+						if p := pick(3 + k); p != "" && bd.Filter.Ref.Table != tableOf(p) {
+							fail("block field %s references %s but its table is %q", bd.Name, p, bd.Filter.Ref.Table)
+						}
 					}
 				}
 			}
 		}
 	}
-	declaredIndex = false
+	declaredIndex, sharedTable = false, false
 	// two dependents referencing the same column of the same integration: both keep the dependency
 	for _, order := range [][]string{{"A", "d1", "d2"}, {"d1", "A", "d2"}, {"d1", "d2", "A"}} {
 		var igs []config.Integration
